@@ -700,5 +700,9 @@ def run(ctx):
         def __getitem__(self, key):
             return key
 
-    for k in ctx.cases():
-        ctx.run_case(k, {}, lambda c: R.run_forked(c, ctx, one))
+    runner = R.ForkRunner(ctx, one)
+    try:
+        for k in ctx.cases():
+            ctx.run_case(k, {}, runner.run)
+    finally:
+        runner.close()
